@@ -49,7 +49,7 @@ def gen_case(rng, supervised, large_scale=False):
     prior = gen.grid(A.T.dot(A) + np.eye(d), bits=5)
   else:
     prior = prior_kind
-  prior_arg = prior.copy() if isinstance(prior, np.ndarray) else prior      # what the estimator gets
+  prior_arg = gen.layout(rng, prior) if isinstance(prior, np.ndarray) else prior      # what the estimator gets (any memory layout)
   # raw features of any magnitude (an exact power of two keeps the grid): the multipliers scale like 1 / distance^2.
   # (with an O(1) array / random prior and data of magnitude 2^17 the optimum has a condition number beyond double
   # precision - the solver legitimately loses definiteness -, so those priors keep unit-scale data)
@@ -70,9 +70,9 @@ def gen_case(rng, supervised, large_scale=False):
     pairs = X[idx]
   if mode == 'prior_feasible':
     bounds = np.array([1e6, 1e-6]) * scale * scale      # every similar pair is closer than the upper, every dissimilar farther than the lower bound
-  elif large_scale or rng.random() < 0.8 or len(X) < 30:
-    # explicit bounds; the default (5th / 95th percentile of ALL pairwise distances, zero diagonal included) is only
-    # used on sets of >= 30 points, where the 5th percentile is not the diagonal's zero
+  elif large_scale or rng.random() < 0.8 or len(np.unique(np.vstack(pairs), axis=0)) < 30:
+    # explicit bounds; the default (5th / 95th percentile of ALL pairwise distances of the points OF THE PAIRS, zero diagonal
+    # included) is only used when these are >= 30 points, where the 5th percentile is not the diagonal's zero
     dd = np.sqrt(((pairs[:, 0] - pairs[:, 1]) ** 2).sum(1))
     # (the bounds constrain v^T M v: they live on the SQUARED distance scale)
     s2 = scale * scale
